@@ -2897,6 +2897,8 @@ fn nat_edge() -> BoxedStrategy<Nat> {
         4 => gen::nat_len(3, 8),
         3 => (0u8..gen::N_PATTERNS, any::<u64>()).prop_map(|(p, s)| Nat(gen::expand(40, p, s))),
         1 => gen::nat_len(9, 80),
+        // lengths at which the multiplication / division / conversion algorithms switch
+        2 => (prop::sample::select(vec![31usize, 32, 33, 64, 65, 191, 192, 193]), 0u8..gen::N_PATTERNS, any::<u64>()).prop_map(|(l, p, s)| Nat(gen::expand(l, p, s))),
     ]
     .boxed()
 }
@@ -3227,7 +3229,7 @@ fn main() {
     }
     let mut ck = Check::new(
         "C16",
-        "catalogue of public operations (macro tables over dashu-base/-int/-float/-ratio: every operator in its ownership / assign / primitive-operand forms, inherent methods, trait methods, Context methods, conversions, formatting, parsing) × edge values of each argument domain (0, ±1, 2^64-1, 2^64, 2^128, a 40-word value, ±infinity, precision 0 and 1, exponents ±1000 / ±2^40 / near isize limits, shift counts to 2^20, powers to 2^22 bits, root orders 0..usize::MAX, radix 0,1,2,36,37,u32::MAX, chunk_bits 0, empty / sign-only / non-ASCII / 10^4-byte strings); every call runs in a supervised worker process (4 GiB address space, 10 s + 30 s deadline) built with debug assertions + overflow checks, and — for every 'must panic' / 'unspecified' case, every case that panicked there and a quarter of the rest — again in a worker built without them; oracle = precondition table computed from the inputs (rustdoc '# Panics' + error.rs helpers): violated => must panic with the documented message, otherwise must return, 'unspecified' where the documentation is silent; parsers on arbitrary strings must return Ok/Err. Non-trivial: the table says 'must panic' or an edge value is involved; distinct by case digest.",
+        "catalogue of public operations (macro tables over dashu-base/-int/-float/-ratio: every operator in its ownership / assign / primitive-operand forms, inherent methods, trait methods, Context methods, conversions, formatting, parsing) × edge values of each argument domain (0, ±1, 2^64-1, 2^64, 2^128, a 40-word value, values of 31..33 / 64..65 / 191..193 words (algorithm thresholds), ±infinity, precision 0 and 1, exponents ±1000 / ±2^40 / near isize limits, shift counts to 2^20, powers to 2^22 bits, root orders 0..usize::MAX, radix 0,1,2,36,37,u32::MAX, chunk_bits 0, empty / sign-only / non-ASCII / 10^4-byte strings); every call runs in a supervised worker process (4 GiB address space, 10 s + 30 s deadline) built with debug assertions + overflow checks, and — for every 'must panic' / 'unspecified' case, every case that panicked there and a quarter of the rest — again in a worker built without them; oracle = precondition table computed from the inputs (rustdoc '# Panics' + error.rs helpers): violated => must panic with the documented message, otherwise must return, 'unspecified' where the documentation is silent; parsers on arbitrary strings must return Ok/Err. Non-trivial: the table says 'must panic' or an edge value is involved; distinct by case digest.",
     );
     let _ = index();
     let _ = plain_exe();
